@@ -124,9 +124,7 @@ func TestBoundedClcTable(t *testing.T) {
 					asc = append(asc, uint8(ll))
 				}
 			}
-			if len(asc) == 0 {
-				return
-			}
+			// the empty code (all nineteen lengths zero) is included: no bit pattern may decode then
 			desc := make([]uint8, len(asc))
 			for i, x := range asc {
 				desc[len(asc)-1-i] = x
@@ -154,7 +152,7 @@ func TestBoundedClcTable(t *testing.T) {
 		cnt[l] = 0
 	}
 	rec(1, 1<<7, codeLenCodes)
-	t.Logf("BOUNDED explored=%d failing=%d (code length code, <=19 symbols, lengths 1..7, complete and incomplete)", explored, nfail)
+	t.Logf("BOUNDED explored=%d failing=%d (code length code, 0..19 symbols, lengths 1..7, complete, incomplete and empty)", explored, nfail)
 }
 
 // TestBoundedClcTableReplay re-runs one recorded input: VERIF_BOUNDED_LENS="l0,l1,..." VERIF_BOUNDED_PREFILL=0|1
